@@ -62,20 +62,21 @@ type vrUpdate struct {
 }
 
 type vrUniverse struct {
-	NB        int     `json:"NB"`
-	Parent    []int   `json:"Parent"`
-	Height    []int   `json:"Height"`
-	NT        int     `json:"NT"`
-	TxPays    []int   `json:"TxPays"`
-	TxSpends  []int   `json:"TxSpends"`
-	ExtScript []int   `json:"ExtScript"`
-	BlockTxs  [][]int `json:"BlockTxs"`
-	StartB    int     `json:"StartB"`
-	StartT    int     `json:"StartT"`
-	InitWatch []int   `json:"InitWatch"`
-	InitChain []int   `json:"InitChain"`
-	InitFH    int     `json:"InitFH"`
-	Lag       bool    `json:"Lag"`
+	NB        int        `json:"NB"`
+	Parent    []int      `json:"Parent"`
+	Height    []int      `json:"Height"`
+	NT        int        `json:"NT"`
+	TxPays    []int      `json:"TxPays"`
+	TxSpends  []int      `json:"TxSpends"`
+	ExtScript []int      `json:"ExtScript"`
+	BlockTxs  [][]int    `json:"BlockTxs"`
+	StartB    int        `json:"StartB"`
+	StartT    int        `json:"StartT"`
+	InitWatch []int      `json:"InitWatch"`
+	InitChain []int      `json:"InitChain"`
+	InitFH    int        `json:"InitFH"`
+	Lag       bool       `json:"Lag"`
+	Updates   []vrUpdate `json:"Updates"`
 }
 
 type vrWorld struct {
@@ -678,6 +679,7 @@ func (x *vrRun) settle(probe bool, d time.Duration) error {
 	if x.gate != nil || x.st != 0 {
 		return nil
 	}
+	wasSel := x.atSel
 	for {
 		x.atSel = false
 		var out chan blockntfns.BlockNtfn
@@ -694,6 +696,7 @@ func (x *vrRun) settle(probe bool, d time.Duration) error {
 		case out <- vrProbe{}:
 			x.atSel = true
 		case <-time.After(d):
+			x.atSel = wasSel
 			return errVrHang
 		}
 		// The select may have preferred the probe to an update that is
@@ -801,6 +804,55 @@ func (x *vrRun) teardown() {
 	x.c.mgr.Stop()
 }
 
+// envAct performs one step of the chain (growth by one header, one filter
+// header, loss of the tip) and hands the notification to the manager.
+func (x *vrRun) envAct(a *vrAct) error {
+	c, w := x.c, x.w
+	var n blockntfns.BlockNtfn
+	c.mu.Lock()
+	tip := c.chain[len(c.chain)-1]
+	switch a.Op {
+	case "Extend":
+		if a.B <= 0 || a.B >= w.u.NB || w.u.Parent[a.B] != tip {
+			c.mu.Unlock()
+			return fmt.Errorf("Extend(%d) on tip %d", a.B, tip)
+		}
+		c.chain = append(c.chain, a.B)
+		if !w.u.Lag {
+			c.fh++
+			n = blockntfns.NewBlockConnected(*w.hdr[a.B], uint32(len(c.chain)-1))
+		}
+	case "AddFH":
+		if c.fh >= len(c.chain)-1 {
+			c.mu.Unlock()
+			return errors.New("AddFH with no header ahead")
+		}
+		c.fh++
+		b := c.chain[c.fh]
+		a.B = b
+		n = blockntfns.NewBlockConnected(*w.hdr[b], uint32(c.fh))
+	case "Rollback":
+		if len(c.chain) < 2 {
+			c.mu.Unlock()
+			return errors.New("Rollback of genesis")
+		}
+		h := len(c.chain) - 1
+		if c.fh == h {
+			c.fh--
+		}
+		c.chain = c.chain[:h]
+		a.B = tip
+		n = blockntfns.NewBlockDisconnected(*w.hdr[tip], uint32(h), *w.hdr[c.chain[h-1]])
+	}
+	c.mu.Unlock()
+	if n != nil {
+		if err := c.emit(n); err != nil {
+			return fmt.Errorf("%s: %v\n%s", a.Op, err, vrDump())
+		}
+	}
+	return nil
+}
+
 var vrGateOps = map[string]bool{"Best": true, "Sub": true, "HdrH": true, "Hdr": true,
 	"FHH": true, "CF": true, "Blk": true, "IsCur": true}
 
@@ -817,7 +869,7 @@ func vrRunPath(w *vrWorld, p vrPathIn) (out vrPathOut) {
 	out.InitObs = x.obs()
 	// normal steps take well under a millisecond, the retry timer 100 ms
 	const tmo = 10 * time.Second
-	const retryTmo = 3 * time.Second
+	const retryTmo = 2 * time.Second
 	for _, s := range p.Steps {
 		a := s.Act
 		if a.Add == nil {
@@ -952,52 +1004,9 @@ func vrRunPath(w *vrWorld, p vrPathIn) (out vrPathOut) {
 			}
 
 		case a.Op == "Extend" || a.Op == "AddFH" || a.Op == "Rollback":
-			c := x.c
-			var n blockntfns.BlockNtfn
-			c.mu.Lock()
-			tip := c.chain[len(c.chain)-1]
-			switch a.Op {
-			case "Extend":
-				if a.B <= 0 || a.B >= w.u.NB || w.u.Parent[a.B] != tip {
-					c.mu.Unlock()
-					out.Error = fmt.Sprintf("Extend(%d) on tip %d", a.B, tip)
-					return
-				}
-				c.chain = append(c.chain, a.B)
-				if !w.u.Lag {
-					c.fh++
-					n = blockntfns.NewBlockConnected(*w.hdr[a.B], uint32(len(c.chain)-1))
-				}
-			case "AddFH":
-				if c.fh >= len(c.chain)-1 {
-					c.mu.Unlock()
-					out.Error = "AddFH with no header ahead"
-					return
-				}
-				c.fh++
-				b := c.chain[c.fh]
-				a.B = b
-				n = blockntfns.NewBlockConnected(*w.hdr[b], uint32(c.fh))
-			case "Rollback":
-				if len(c.chain) < 2 {
-					c.mu.Unlock()
-					out.Error = "Rollback of genesis"
-					return
-				}
-				h := len(c.chain) - 1
-				if c.fh == h {
-					c.fh--
-				}
-				c.chain = c.chain[:h]
-				a.B = tip
-				n = blockntfns.NewBlockDisconnected(*w.hdr[tip], uint32(h), *w.hdr[c.chain[h-1]])
-			}
-			c.mu.Unlock()
-			if n != nil {
-				if err := c.emit(n); err != nil {
-					out.Error = a.Op + ": " + err.Error() + "\n" + vrDump()
-					return
-				}
+			if err := x.envAct(&a); err != nil {
+				out.Error = err.Error()
+				return
 			}
 
 		default:
